@@ -23,7 +23,8 @@ AC = "litex/soc/interconnect/axi/axi_common.py"
 EXPLANATION = ("FHDL IR of the AXI-Lite and AXI arbiters/decoders/request counters extracted from the AST (channel loops over "
                "layout_flat() kept symbolic in channel/name, conditional masks as conditional expressions); guard entailment for "
                "the counters and clock enables; index agreement between select bit and slave; literal channel-role tables.")
-TECHNIQUE = "AST-extracted FHDL IR + guard entailment + index agreement + literal role tables (sibling files cross-checked)"
+TECHNIQUE = ("AST-extracted FHDL IR + guard entailment + index agreement + role tables by abstract interpretation of connect"
+             "_axi / axi_layout_flat on model interfaces (sibling files cross-checked)")
 
 FAMILIES = [
     (AL, "_AXILiteRequestCounter", "AXILiteArbiter", "AXILiteDecoder", False),
